@@ -84,6 +84,9 @@ pub struct ClosureSig {
 pub struct Source {
     pub file: String,
     pub select: Vec<String>,
+    /// identifiers renamed in the items of this source (module-private names that would collide in the flat unit)
+    #[serde(default)]
+    pub rename: BTreeMap<String, String>,
 }
 
 pub struct Log {
@@ -109,6 +112,9 @@ fn main() {
         for sel in &src.select {
             let items = select(&file, sel).unwrap_or_else(|e| fail(&format!("lost anchor: {sel} in {}: {e}", src.file)));
             for mut item in items {
+                if !src.rename.is_empty() {
+                    rules::rename_idents(&mut item, &src.rename, &mut log);
+                }
                 rules::rewrite_item(&mut item, &unit, &mut log, &mut lifted);
                 out.push_str(&format!("// @item {} :: {}\n", src.file, sel));
                 out.push_str(&item.to_token_stream().to_string());
